@@ -46,7 +46,7 @@ try:
         keys = sorted({l.split("violation key=")[1].split(":")[0] for l in r.stdout.splitlines() if "violation key=" in l})
         res[c] = {"exit": r.returncode, "violation_lines": sum(1 for l in r.stdout.splitlines() if l.startswith("VIOLATION")), "keys": keys[:6]}
     meta["checks_" + tier] = res
-    out = os.path.join(HERE, "seeded", "%s_%s" % (prop, var))
+    out = os.path.join(HERE, "seeded", "%s_%s%s" % (prop, var, os.environ.get("SEED_SUFFIX", "")))
     os.makedirs(out, exist_ok=True)
     shutil.copy(patch, os.path.join(out, "patch.diff")); shutil.copy(demo, os.path.join(out, "demo.py"))
     notes = os.path.join(wt, "NOTES.md")
